@@ -13,7 +13,9 @@ RULE = ("random arrays of 0-4 dims x label kind {int,float,str} x order {inc,dec
         "every spelling (a[], take tuple/dict/axis=, .loc, .sel, .ix, .iloc, .isel, .nloc, tol=) under both 'indexing.by' values. "
         "A class = (ndim, per-dim (kind,order,index kind), tuple form, option value, tol mode); trivial = 0-d array or all-full index")
 ANCHORS = ["bases.loc", "indexing.locate_one", "indexing.locate_many", "bases._get_indices", "bases._getitem",
-           "bases._getaxes_ortho", "indexing.orthogonal_indexer", "axes.__getitem__"]
+           "bases._getaxes_ortho", "indexing.orthogonal_indexer", "axes.__getitem__", "bases.__getitem__"]
+# entry points the workload calls itself; the other anchors are helpers behind them (counted as evidence only)
+ANCHORS_REQUIRED = ["bases.__getitem__"]
 FLOORS = {"quick": {"evaluations": 400, "distinct": 150, "outcome:absent-raised": 20, "outcome:spellings-compared": 1500},
           "thorough": {"evaluations": 20000, "distinct": 1000}}
 ASSUMPTIONS = ["labels are unique int/float/str (no None/NaN/datetime labels); broadcast=True fancy indexing is out of scope"]
